@@ -150,20 +150,25 @@ PROPS = {
                     # unobserved), repeated, with the default-provided resources removed / replaced through world_mut()
                     # in between: hook of every ordinary and thread-local system exactly once, resources created, existing
                     # ones untouched
-                    {"engine": "asyncd", "args": {}, "quick": {"cases": 100, "hist": 1}, "thorough": {"cases": 3000, "hist": 2}}],
-        "also": {"C06": ["[setup]"], "C15": ["setup-hooks", "setup-resource", "setup-overwrite"]},
+                    {"engine": "asyncd", "args": {}, "quick": {"cases": 100, "hist": 1}, "thorough": {"cases": 3000, "hist": 2}},
+                    # systems that are leaves of a ParSeq (itself a system of a dispatcher, or set up directly): every setup call reaches every leaf's own hook
+                    {"engine": "parseq", "args": {}, "quick": {"cases": 150, "runs": 2, "reps": 1, "max-leaves": 12, "hold-us": 50, "max-setups": 4}, "thorough": {"cases": 3000, "runs": 3, "reps": 1, "max-leaves": 30, "hold-us": 50, "max-setups": 5}}],
+        "also": {"C06": ["[setup]"], "C15": ["setup-hooks", "setup-resource", "setup-overwrite"], "C16": ["setup"]},
         "aspects": ["lifecycle", "outcome", "setup"],
         "assumptions": ["the world part of the theorems covers the controller data types the harness uses; every system-data type is C06's subject"],
     },
     "C14": {
         "statement": "for every log accepted by the driver's panic-aware acceptor (PR.run): C14_panic_reported_iff, C14_dependents_dont_run, C14_at_most_once, C14_nothing_left_open; plus the declarative PTraces semantics (C14_panicked_iff, C14_payload_source)",
-        "engines": [trace("flat,base,batch,tl,flat", quick=60, panics=True), trace("tlbatch", quick=30, thorough=1000, panics=True)],
+        "engines": [trace("flat,base,batch,tl,flat", quick=60, panics=True), trace("tlbatch", quick=30, thorough=1000, panics=True),
+                    # a system whose fetch fails half-way (a later member is refused): what the earlier members took is given back
+                    {"engine": "sysdata", "args": {}, "quick": {"exhaust-upto": 5, "samples": 10, "pre-samples": 6}, "thorough": {"exhaust-upto": 8, "samples": 100, "pre-samples": 30}}],
+        "also": {"C06": ["[unwind]", "[release]"]},
         "aspects": TRACE,
         "assumptions": [RAYON, "rayon re-raises a job's panic in the caller of install after the stage's started jobs finished; unwinding drops guards; RwLock read locks do not poison"],
     },
     "C18": {
         "statement": "add_panics_iff / add_ok / resolve_error_iff",
-        "engines": [plan("malformed,funnel,plan,funnel", quick=400, **{"max-n": 40}), plan_nopar("malformed,plan"), plan_release("malformed,plan,funnel")],
+        "engines": [plan("malformed,funnel,plan,funnel,tlbatch", quick=400, **{"max-n": 40}), plan_nopar("malformed,plan"), plan_release("malformed,plan,funnel")],
         "aspects": ["outcome", "query"],
         "assumptions": ["panic payloads are compared as text (quoted name)"],
     },
